@@ -27,6 +27,11 @@ def dom(cx, body, A, B, what, key=None):
     ok_all = True
     for b in B:
         ok = (b.bb not in Ab) and body.set_dominates(Ab, b.bb)
+        if not ok and b.bb not in Ab:
+            # prune paths that contradict a variant fact (e.g. a spliced helper's `return Err(..)` followed by the
+            # caller's `?`): sound, feasible_reach over-approximates the feasible paths
+            from ..core import feasible_reach
+            ok = b.bb not in feasible_reach(body, [0], avoid=Ab)
         k = key or ("dom:%s" % what)
         if not ok:
             p = body.path(0, b.bb, avoid=Ab)
@@ -78,6 +83,10 @@ def mpt(cx, body, frm, through, what, to=None, key=None):
         bb = a.bb if hasattr(a, "bb") else a
         r = body.reachable_after([bb], avoid=Tb)
         bad = [e for e in to if e in r and e not in Tb]
+        if bad:
+            from ..core import feasible_reach
+            r = feasible_reach(body, list(body.succ[bb]), avoid=Tb)
+            bad = [e for e in to if e in r and e not in Tb]
         k = key or ("mpt:%s" % what)
         w = a.where() if hasattr(a, "where") else body.where(bb)
         if bad:
